@@ -45,7 +45,7 @@ def cases(draw):
     mode = draw(st.sampled_from(["heuristic", "thorough", "exhaustive", "strip"]))
     n = draw(st.integers(1, 8))
     return {"src": src, "setting": {"rate": rate, "blockshape": list(bs)}, "mode": mode,
-            "ops": [draw(ops.abstract_op(METHODS)) for _ in range(n)]}
+            "ops": [draw(ops.abstract_op(METHODS)) for _ in range(n)], "shared_reader": draw(st.booleans())}
 
 
 def run_case(case, ctx):
@@ -74,7 +74,9 @@ def run_case(case, ctx):
     stages.check_file(out, want, "2d")
     T = files.Truth(conv.read_bytes(out))
     aops = case["ops"] if headers is not None else [a for a in case["ops"] if a["m"] not in ops.METHODS_3D_HEADERS]
-    labels = ops.run_ops(out, T, aops)
+    labels = ops.run_ops(out, T, aops, fresh=not case.get("shared_reader"))
+    if case.get("shared_reader"):
+        labels.append("shared-reader")
     with SgzReader(out) as r:
         for name, call in (("read_inline", lambda: r.read_inline(0)), ("read_crossline", lambda: r.read_crossline(0)),
                            ("read_zslice", lambda: r.read_zslice(0)), ("read_subvolume", lambda: r.read_subvolume(0, 1, 0, 1, 0, 1)),
